@@ -576,6 +576,7 @@ func (p *prop) Run(line string) core.Outcome {
 		o.Tags = append(o.Tags, "bad-dct", "trivial")
 		return o
 	}
+	judgeNegotiation(k, sel, &o)
 	p.judge(k, sel, rcd, res, &o)
 	return o
 }
